@@ -295,7 +295,13 @@ fn wildcard_value(kind: usize, row: &[f32]) -> f32 {
     match kind {
         0 => f32::NEG_INFINITY,
         1 => mn - 1.0,
-        _ => mean,
+        2 => mean,
+        // above every entry of the row: the 8-bit scale ignores the wildcard column, windows with several
+        // wildcards exceed the headroom and must saturate, not wrap
+        _ => {
+            let mx = row.iter().cloned().fold(f32::NEG_INFINITY, f32::max);
+            mx + 0.25 * (mx - mn) + 0.125
+        }
     }
 }
 
@@ -350,7 +356,7 @@ pub fn run(ctx: &mut Ctx, rep: &mut Report) {
         rep.space(
             "menu",
             "product: all 7^M DNA matrices built from a 7-row menu (incl. rows whose byte image is x.5, so that already M=2 pushes the consensus sum past 255), M in 1..=4 (thorough 1..=5), \
-             x wildcard column {-inf, row minimum - 1, row mean} x 14 kernels {generic U16/U32, sse2 U16/U32, avx2 saturating, dispatcher arms, scalar DiscreteMatrix::score_position; generic / avx2 / dispatcher arms block by block through score_rows_into on a reused buffer} \
+             x wildcard column {-inf, row minimum - 1, row mean, above the row maximum} x 14 kernels {generic U16/U32, sse2 U16/U32, avx2 saturating, dispatcher arms, scalar DiscreteMatrix::score_position; generic / avx2 / dispatcher arms block by block through score_rows_into on a reused buffer} \
              on a de Bruijn word containing EVERY 5^M window (wildcard included); oracle: u8 >= scale(real) at every position and, for every attainable threshold, real>=t => u8>=scale(t); \
              evaluations = kernel runs; non-trivial = some window has a finite real score",
         );
@@ -358,7 +364,7 @@ pub fn run(ctx: &mut Ctx, rep: &mut Report) {
             let n = (rows.len() as u64).pow(m as u32);
             let seq = model::de_bruijn(5, m);
             for mi in 0..n {
-                for wk in 0..3usize {
+                for wk in 0..4usize {
                     let idx = base;
                     base += 1;
                     if !ctx.mine(idx) {
